@@ -48,6 +48,7 @@ type c22Use struct {
 	what   string        // short description
 	copier *ssa.Function // c22Read through a call whose result is a copy of the object
 	resIdx []int         // c22Return: result indexes
+	via    ssa.Value     // the alias through which the object is used
 }
 
 type c22ParamSum struct {
@@ -424,6 +425,7 @@ func (e *c22Engine) track(roots []ssa.Value, rootTuples map[ssa.Value]int, concr
 			continue
 		}
 		for _, r := range *refs {
+			n0 := len(o.uses)
 			switch x := r.(type) {
 			case *ssa.DebugRef:
 			case *ssa.MakeInterface:
@@ -483,9 +485,77 @@ func (e *c22Engine) track(roots []ssa.Value, rootTuples map[ssa.Value]int, concr
 			default:
 				use(c22Escape, r, fmt.Sprintf("used by %T", r))
 			}
+			for i := n0; i < len(o.uses); i++ {
+				if o.uses[i].via == nil {
+					o.uses[i].via = a
+				}
+			}
 		}
 	}
 	return o
+}
+
+// gateOf: when the alias through which a use happens derives from a phi, the object is only present
+// there on executions that entered the phi through one of its alias edges. Returns that phi (or nil).
+func (o *c22Obj) gateOf(v ssa.Value) *ssa.Phi {
+	for hops := 0; hops < 32 && v != nil; hops++ {
+		switch x := v.(type) {
+		case *ssa.Phi:
+			return x
+		case *ssa.MakeInterface:
+			v = x.X
+		case *ssa.ChangeInterface:
+			v = x.X
+		case *ssa.ChangeType:
+			v = x.X
+		case *ssa.TypeAssert:
+			v = x.X
+		case *ssa.Extract:
+			ta, ok := x.Tuple.(*ssa.TypeAssert)
+			if !ok {
+				return nil
+			}
+			v = ta.X
+		default:
+			return nil
+		}
+	}
+	return nil
+}
+
+// gateOpen: can the object be inside phi when an instruction after st uses the phi? Either the phi was
+// evaluated before st (it may already hold the object), or st can still reach one of the alias edges and the
+// edge's value can itself hold the object at that time (nested phis are followed; a phi that only feeds itself
+// does not justify itself).
+func (e *c22Engine) gateOpen(o *c22Obj, phi *ssa.Phi, st ssa.Instruction, seen map[*ssa.Phi]bool) bool {
+	if e.reachable(phi, st) {
+		return true
+	}
+	if seen[phi] {
+		return false
+	}
+	seen[phi] = true
+	for i, ed := range phi.Edges {
+		if !o.aliases[ed] || i >= len(phi.Block().Preds) {
+			continue
+		}
+		pred := phi.Block().Preds[i]
+		if len(pred.Instrs) == 0 {
+			return true
+		}
+		term := pred.Instrs[len(pred.Instrs)-1]
+		if term != st && !e.reachable(st, term) {
+			continue
+		}
+		g := o.gateOf(ed)
+		if g == phi {
+			continue // a phi that feeds itself does not justify itself
+		}
+		if g == nil || e.gateOpen(o, g, st, seen) {
+			return true
+		}
+	}
+	return false
 }
 
 // fieldUses classifies what happens to &obj.f.
@@ -972,6 +1042,11 @@ func (e *c22Engine) storeVerdict(st *ssa.Store, base ssa.Value) c22StoreVerdict 
 			continue
 		}
 		after := e.reachable(st, u.at)
+		if after {
+			if g := o.gateOf(u.via); g != nil && !e.gateOpen(o, g, st, map[*ssa.Phi]bool{}) {
+				after = false // the use sees the phi's other operand on every path from the store
+			}
+		}
 		switch u.kind {
 		case c22Read, c22Return:
 			if after {
